@@ -38,6 +38,9 @@ type StructV struct {
 	F      map[string]Value
 }
 
+// ErrV is a value of type error: only nil-ness is modelled (the text of errors is dropped).
+type ErrV struct{ IsNil *Term }
+
 type TupleV struct{ Vs []Value }
 type NilV struct{}
 type OpaqueV struct {
@@ -93,6 +96,11 @@ func (k intKind) rng() (lo, hi *big.Int) {
 func isBoolType(t types.Type) bool {
 	b, ok := t.Underlying().(*types.Basic)
 	return ok && b.Info()&types.IsBoolean != 0
+}
+
+func isErrorType(t types.Type) bool {
+	n, ok := t.(*types.Named)
+	return ok && n.Obj().Pkg() == nil && n.Obj().Name() == "error"
 }
 
 func heapName(elem types.Type) string {
